@@ -135,7 +135,9 @@ def world_dyn():
     H = {"base": "", "fields": [fld("y", 2, False), {"name": "s", "kind": "obj", "cls": "A", "rand": True},
                                 {"name": "ol", "kind": "objlist", "cls": "A", "n": 2, "rand": True}],
          "blocks": [{"name": "hc", "dynamic": False, "body": [E(B("le", F("s.a"), F("y")))]},
-                    {"name": "hd", "dynamic": True, "body": [E(B("eq", F("y"), lit(2)))]}]}
+                    # a CLASS constraint that references the dynamic block of a list element, and a dynamic block doing so
+                    {"name": "he", "dynamic": False, "body": [E(DYN("ol[1]", "d2"))]},
+                    {"name": "hd", "dynamic": True, "body": [E(B("eq", F("y"), lit(2))), E(DYN("ol[0]", "d1"))]}]}
     return {"classes": {"A": A, "H": H},
             "population": [{"id": "o1", "cls": "A"}, {"id": "o2", "cls": "A"}, {"id": "o3", "cls": "A"},
                            {"id": "h1", "cls": "H"}, {"id": "h2", "cls": "H"}]}
@@ -163,7 +165,7 @@ def hist_dyn(rnd, sid, steps):
     alive = [pool.pop()]
     ops = [{"op": "construct", "o": alive[0]}]
     ks = {}
-    if rnd.random() < 0.5:
+    if rnd.random() < 0.65:
         alive.append("h1")
         ops.append({"op": "construct", "o": "h1"})
     for i in range(steps):
@@ -177,7 +179,7 @@ def hist_dyn(rnd, sid, steps):
         elif r < 0.3:
             o = rnd.choice(flat)
             ops.append({"op": "set", "p": o + ".k", "v": bits(rnd.randrange(4), 2)})
-        elif r < 0.4 and "h1" in alive:
+        elif r < 0.45 and "h1" in alive:
             inl = rnd.choice([[E(DYN("s", "d1"))], [E(DYN("", "hd"))], [E(B("or", DYN("s", "d2"), DYN("", "hd")))],
                               [E(DYN("ol[1]", "d1"))], [E(DYN("ol[0]", "d2")), E(DYN("s", "d3"))]])
             ops.append({"op": "call", "call": wcall(inl, "h1")})
@@ -195,6 +197,13 @@ def hist_dyn(rnd, sid, steps):
                 ops.append({"op": "probe", "call": wcall([], o), "paths": [o + ".a", o + ".b"]})
         if rnd.random() < 0.3:
             ops.append({"op": "call", "call": mcall(rnd.choice(flat))})
+        if "h1" in alive and rnd.random() < 0.3:
+            # the object list is emptied and refilled with fresh objects: references go to the NEW elements
+            ops.append({"op": "call", "call": mcall("h1")})
+            ops.append({"op": "ol_refill", "p": "h1.ol"})
+            ops.append({"op": "call", "call": mcall("h1")})
+            ops.append({"op": "probe", "call": wcall([], "h1"), "mode": "around", "nsol": 3, "cap": 100,
+                        "paths": ["h1.y"] + ["h1." + p for p in ("s.a", "s.b", "ol[0].a", "ol[0].b", "ol[1].a", "ol[1].b")]})
     return {"id": sid, "world": world, "ops": ops, "tags": []}
 
 
